@@ -117,6 +117,7 @@ type fnCtx struct {
 	callOrd      map[string]int
 	assertHit    map[int]bool
 	callSites    []*callSite
+	retLabels    []string
 }
 
 // callSite is one static call of an in-module function (recorded in the root context, also for calls made from
@@ -1315,4 +1316,26 @@ func (c *fnCtx) mergePhi(phi *ssa.Phi, b *ssa.BasicBlock, preds []*ssa.BasicBloc
 		}
 	}
 	return v
+}
+
+// retLabel names the ri-th return of the function by the source text of the return statement and its occurrence
+// among returns with the same text (not by its ordinal: adding or removing an unrelated return must not rename
+// the obligations of the others).
+func (c *fnCtx) retLabel(ri int) string {
+	if c.retLabels == nil {
+		c.retLabels = make([]string, len(c.rets))
+		occ := map[string]int{}
+		for i, r := range c.rets {
+			t := "end"
+			if r.pos.IsValid() {
+				t = shortText(c.eng.srcText(r.pos))
+			}
+			c.retLabels[i] = fmt.Sprintf("ret:%s/%d", t, occ[t])
+			occ[t]++
+		}
+	}
+	if ri < len(c.retLabels) {
+		return c.retLabels[ri]
+	}
+	return fmt.Sprintf("ret:?/%d", ri)
 }
